@@ -49,6 +49,13 @@ def expected_model(c):
     return "skip"
 
 
+def generate(ctx=None):
+    """Translator: coq/Gen/Skeleton.v (call and access facts with must-hold locksets) from
+    /repo's current source; the property file carries the obligation Cxx_skeleton_assumptions."""
+    from checks import c10
+    return c10.generate(ctx)
+
+
 def setup():
     L.go_build("c06")
     L.ocaml_build("c06")
@@ -162,6 +169,9 @@ def correspondence(ctx):
 def search(ctx, violations):
     """A layer broke without a concrete input: larger run with another seed; any FOREIGN /
     stale delivery found there is the failing input."""
+    from checks import c10
+    c10.annotate_skeleton_failure(ctx, violations, "SkeletonConn", "conn_assumptions", "Model/ConnMux.v / ConnOps.v", "conn.go / batch.go")
+    c10.annotate_skeleton_failure(ctx, violations, "SkeletonTransport", "transport_assumptions", "Model/TransportPool.v", "transport.go")
     ctx.seed += 1000
     try:
         out, _ = run_harness(ctx, 1500, 200)
